@@ -331,8 +331,11 @@ func cmdCheck(args []string) {
 	if *tier == "thorough" {
 		perCheck = 60000
 	}
-	smtDir := filepath.Join("/root/scratch/digvc", *prop)
-	os.RemoveAll(smtDir)
+	os.MkdirAll("/root/scratch/digvc", 0o755)
+	smtDir, derr := os.MkdirTemp("/root/scratch/digvc", *prop+"-")
+	if derr != nil {
+		smtDir = filepath.Join(os.TempDir(), fmt.Sprintf("digvc-%s-%d", *prop, os.Getpid()))
+	}
 	fns := w.functionsFor(*prop)
 	lock0 := readLock(filepath.Join(*verif, "obligations.lock"))
 	if !*updateLock {
